@@ -21,7 +21,9 @@ def pmap(fn, shards, workers=None):
         return [fn(s) for s in shards]
     _fn = fn
     ctx = mp.get_context("fork")
-    with ctx.Pool(min(workers, len(shards))) as pool:
+    # maxtasksperchild=1: every shard runs in a process freshly forked from the parent, so a shard's behaviour
+    # is a function of the shard alone even if the code under test keeps module-level state
+    with ctx.Pool(min(workers, len(shards)), maxtasksperchild=1) as pool:
         return pool.map(_call, shards, chunksize=1)
 
 
